@@ -3,17 +3,33 @@
 package compact
 
 import (
+	"bytes"
 	"context"
 	"errors"
 	"fmt"
 	"io"
+	"math/rand"
 	"path"
 	"strings"
 	"sync"
 	"time"
 
+	"github.com/oklog/ulid/v2"
 	"github.com/thanos-io/objstore"
 )
+
+// vfcfbULID builds a ULID with the given millisecond time and entropy from rng.
+func vfcfbULID(rng *rand.Rand, ms uint64) ulid.ULID {
+	var e [10]byte
+	for i := range e {
+		e[i] = byte(rng.Intn(256))
+	}
+	id, err := ulid.New(ms, bytes.NewReader(e[:]))
+	if err != nil {
+		panic(err)
+	}
+	return id
+}
 
 // ---------------------------------------------------------------------------------------------
 // Fault bucket (DESIGN.md section 4), shared by the pkg/compact monitors C29, C32, C33, C34.
